@@ -242,40 +242,78 @@ theorem readRecs_all (rs : List Rec) (fuel : Nat) (hwf : ∀ r ∈ rs, Rec_WF r)
   have := readRecs_truncated rs (rs.flatMap recBytes).length fuel hwf hf
   rwa [List.take_of_length_le (Nat.le_refl _), truncSpec_all _ _ (Nat.le_refl _)] at this
 
+/-- more fuel does not change a result -/
+theorem readRecs_mono (fuel fuel' : Nat) (x : Bytes) (v : List Rec) (h : readRecs fuel x = .ok v) (hle : fuel ≤ fuel') :
+    readRecs fuel' x = .ok v := by
+  induction fuel generalizing fuel' x v with
+  | zero => simp [readRecs] at h
+  | succ fuel ih =>
+    cases fuel' with
+    | zero => omega
+    | succ fuel' =>
+      unfold readRecs at h ⊢
+      cases hn : nextRec x with
+      | none => simpa [hn] using h
+      | some p =>
+        obtain ⟨r, n⟩ := p
+        simp only [hn] at h ⊢
+        cases hr : readRecs fuel (x.drop n) with
+        | error e => simp [hr] at h
+        | ok ys =>
+          simp only [hr] at h
+          rw [ih _ _ _ hr (by omega)]
+          exact h
+
+/-- the truncation result with exactly the fuel the model provides (one iteration per 16 bytes, plus one) -/
+theorem readRecs_truncated' (rs : List Rec) (n fuel : Nat) (hwf : ∀ r ∈ rs, Rec_WF r)
+    (hf : ((rs.flatMap recBytes).take n).length / 16 + 1 ≤ fuel) :
+    readRecs fuel ((rs.flatMap recBytes).take n) = .ok (truncSpec rs n) := by
+  have hbig := readRecs_truncated rs n (rs.length + 2 + fuel) hwf (by omega)
+  cases hr : readRecs fuel ((rs.flatMap recBytes).take n) with
+  | error e =>
+    have := readRecs_error _ _ _ hr
+    subst this
+    exact absurd hr (readRecs_fuel_sufficient _ _ hf)
+  | ok w =>
+    have := readRecs_mono _ (rs.length + 2 + fuel) _ _ hr (by omega)
+    rw [hbig] at this
+    injection this with this
+    rw [this]
+
 /-- the number of bytes the first `k` records occupy -/
-def sizeOf (rs : List Rec) : Nat := (rs.flatMap recBytes).length
+def bytesOf (rs : List Rec) : Nat := (rs.flatMap recBytes).length
 
 /-- shape of the result after a cut at `n` bytes: the `k` records that end at or before the cut, unchanged and in
     order; then nothing, or the next record with a proper prefix of its payload and both lengths set to that
     prefix's length; `k` is maximal -/
 theorem truncSpec_shape (rs : List Rec) (n : Nat) :
-    ∃ k tail, truncSpec rs n = rs.take k ++ tail ∧ k ≤ rs.length ∧ sizeOf (rs.take k) ≤ n ∧
-      (k < rs.length → n < sizeOf (rs.take (k + 1))) ∧
+    ∃ k tail, truncSpec rs n = rs.take k ++ tail ∧ k ≤ rs.length ∧ bytesOf (rs.take k) ≤ n ∧
+      (k < rs.length → n < bytesOf (rs.take (k + 1))) ∧
       (tail = [] ∨ ∃ r m, rs[k]? = some r ∧ m < r.payload.length ∧ tail = [shorten r m] ∧
-                         sizeOf (rs.take k) + 16 + m = n) := by
+                         bytesOf (rs.take k) + 16 + m = n) := by
   induction rs generalizing n with
-  | nil => exact ⟨0, [], by simp [truncSpec], by simp, by simp [sizeOf], by simp, Or.inl rfl⟩
+  | nil => exact ⟨0, [], by simp [truncSpec], by simp, by simp [bytesOf], by simp, Or.inl rfl⟩
   | cons r rs ih =>
     simp only [truncSpec]
     by_cases h16 : n < 16
-    · refine ⟨0, [], by simp [h16], by simp, by simp [sizeOf], ?_, Or.inl rfl⟩
-      intro _; simp [sizeOf]; omega
+    · refine ⟨0, [], by simp [h16], by simp, by simp [bytesOf], ?_, Or.inl rfl⟩
+      intro _; simp [bytesOf]; omega
     · by_cases hcut : n < 16 + r.payload.length
-      · refine ⟨0, [shorten r (n - 16)], by simp [h16, hcut], by simp, by simp [sizeOf], ?_, Or.inr ⟨r, n - 16, by simp, by omega, rfl, ?_⟩⟩
-        · intro _; simp [sizeOf]; omega
-        · simp [sizeOf]; omega
+      · refine ⟨0, [shorten r (n - 16)], by simp [h16, hcut], by simp, by simp [bytesOf], ?_, Or.inr ⟨r, n - 16, by simp, by omega, rfl, ?_⟩⟩
+        · intro _; simp [bytesOf]; omega
+        · simp [bytesOf]; omega
       · obtain ⟨k, tail, he, hk, hs, hmax, ht⟩ := ih (n - (16 + r.payload.length))
         refine ⟨k + 1, tail, by simp [h16, hcut, he], by simp; omega, ?_, ?_, ?_⟩
-        · simp only [sizeOf, List.take_succ_cons, List.flatMap_cons, List.length_append, recBytes_length] at hs ⊢
+        · simp only [bytesOf, List.take_succ_cons, List.flatMap_cons, List.length_append, recBytes_length] at hs ⊢
           omega
         · intro hlt
           have := hmax (by simpa using hlt)
-          simp only [sizeOf, List.take_succ_cons, List.flatMap_cons, List.length_append, recBytes_length] at this ⊢
+          simp only [bytesOf, List.take_succ_cons, List.flatMap_cons, List.length_append, recBytes_length] at this ⊢
           omega
         · rcases ht with ht | ⟨r', m, h1, h2, h3, h4⟩
           · exact Or.inl ht
           · refine Or.inr ⟨r', m, by simpa using h1, h2, h3, ?_⟩
-            simp only [sizeOf, List.take_succ_cons, List.flatMap_cons, List.length_append, recBytes_length] at h4 ⊢
+            simp only [bytesOf, List.take_succ_cons, List.flatMap_cons, List.length_append, recBytes_length] at h4 ⊢
             omega
 
 /-! ### the file model -/
